@@ -35,7 +35,7 @@ def compare_sets(run, kind, specs, specs2, env, names, signs=None, extra=None):
         run.case((kind, n) + sig(specs) + (extra,), sample={"rewrite": kind, "op": n, "basis": core.describe_basis(specs)})
         run.count("rewrite " + kind)
         run.count("function " + n)
-        tol = (1e-6 if n.startswith("eri") else 1e-9) * max(1e-300, float(np.abs(exp).max()))
+        tol = pf.rel_tol(n, exp)
         if b[n].shape != exp.shape or np.abs(b[n] - exp).max() > tol:
             run.violation(f"{n}: result changes under the rewrite '{kind}' of the basis",
                           {"case": kind, "function": n, "basis": core.describe_basis(specs), "basis2": core.describe_basis(specs2),
@@ -100,7 +100,7 @@ def linearity(run, rng, sa, sb):
                     ("Eval", lambda s: Eval.construct_array_contraction(s, pts))):
         a1, a2, a3 = f(s1), f(s2), f(s3)
         sc = max(1e-300, float(np.abs(a1).max()), float(np.abs(a2).max()))
-        if np.abs(a3 - (x * a1 + y * a2)).max() > 1e-9 * sc * (abs(x) + abs(y) + 1):
+        if np.abs(a3 - (x * a1 + y * a2)).max() > 1e-9 * sc * (abs(x) + abs(y) + 1) + 1e-14 * sc:
             run.violation(f"{name}.construct_array_contraction is not linear in the contraction coefficients",
                           {"case": "linear", "basis": core.describe_basis([sa, sb]), "function": name, "signature": {"kind": "contraction-linearity"}})
             ok = False
